@@ -25,7 +25,7 @@ from common import Model, hx, exc_name, INTERNAL
 
 logging.disable(logging.CRITICAL)
 
-LEAN_TARGETS = ["NfcVerif.Props.C07", "drv_c07"]
+LEAN_TARGETS = ["NfcVerif.Props.C07", "drv_c07", "NfcVerif.Props.TablesPdu"]
 
 THEOREMS = ["NfcVerif.C07." + t for t in (
     "pdu_decode_total", "dep_decode_total", "dep_decode_counterexample", "dep_decode_is_c04", "dep_decode_total_c04",
@@ -1019,6 +1019,7 @@ def part_snep(cx):
 
 # ====================================================================== main
 def run(ck):
+    ck.tables("TablesPdu")   # T-tie for constants: source tables re-extracted, bridge theorems re-proved
     from sims import peer_inject as P
     from sims import peer_llc as L
     ck.rule = ("a case = one octet string (or script of octet strings) injected at one protocol position of the real code: "
